@@ -66,6 +66,17 @@ CHECKS["C18"] = dict(
    text="Design: every interleaving of 2-3 operations (Encode, Decode of a lazy list with force and Close, stream encode/decode) over 2 objects per pool incl. GC of pooled objects keeps OneHolder, NotPooledWhileHeld, CleanInPool, Isolated, AllReturned; every interleaving of 3 Sends keeps OwnReply. Code: all complete schedules of the lock-free client model are replayed on the real frame.Client through the verif gate (a schedule the mutex forbids simply blocks), and K in 2..64 goroutines of 8 operation kinds on private random values run under -race with GOMAXPROCS 1/2/16 and forced GCs while the pool hooks log every Get/Put; TLC checks that each object is put back by its holder after its reset, that a pooled object comes back clean, that each operation's digest equals its sequential digest, that K concurrent Sends get their own replies and that a K-way plugin fan-out merges without loss.",
    note="On the real code the schedule is sampled for the pools (stress + race detector) and enumerated only for the frame client (gate). Lazy containers may be dropped without Close, so double holding of those is detected at the next Put. Trusted: TLC, runtime race detector, goroutine ids from runtime.Stack.")
 
+CHECKS["C01"] = dict(
+   level="model_checking", ref="DESIGN.md section 5 (C01), GenCodec.tla, SchemaFamily.tla, GoShape.tla",
+   technique="schema-driven reference codec in TLA+ (GenCodec.tla) checked for self-consistency by TLC over the bounded schema family F1; the family is rendered to IDL, code-generated by the thriftrw under test, compiled into a lab binary and run on every TLC-generated case; recorded Go values (reflection projection) and serializer bytes are judged by TLC through the reference codec (C01Trace.tla) -- translation-validation flavour",
+   text="TLC enumerates F1 = 43 field shapes (8 base types, enum, struct, typedef chains, lists/sets/maps incl. unhashable keys/elements and nested containers) x required/optional x with/without default x struct/union/exception (286 types) plus multi-field struct/union/exception/nesting types, with boundary values (1064 values), and checks that the reference serializer/deserializer invert each other and agree with both reader models. All types are generated by the real generator, built, and each value's reference encoding (also with reversed field order) is decoded by FromWire and by the streaming Decode under 4 read segmentations and re-serialized by ToWire and by the streaming Encode; TLC interprets the mini-schema of each case to compare projected Go values and re-decoded bytes with the value (defaults filled in). Schema-violating Go values (zero union, two union members, nil required field, nil element/key) must be refused by both serializers.",
+   note="Trusted: TLC, the reflection projection (json tags), the IDL renderer. Default option set only; other option sets are covered by C10/C15/C06. Exhaustive over F1, which is a bounded family.")
+CHECKS["C04"] = dict(
+   level="model_checking", ref="DESIGN.md section 5 (C04), GenPaths.tla",
+   technique="two-machine TLA+ model of the value-based and streaming deserialization paths (GenPaths.tla) model-checked by TLC on all byte strings up to a bound for 8 schemas; byte strings, valid encodings and mutants run through generated code in the lab; C04Trace.tla judges agreement of the paths and conformance to the two machines",
+   text="TLC checks NeverDifferent, WireImpliesStream and agreement with the reference deserializer for both machines (lazy containers forced only where FromWire reads them; element-type guard yielding nil containers; Skip on the stream path) on every byte string over a 9-symbol alphabet up to length 5 (7 thorough; length 8 = 387 M states verified once) for 8 schemas. Real code: all strings up to length 3-4 for those schemas plus valid encodings and byte-level mutants of the F1/multi-field types are decoded on both paths under 4 segmentations and survivors re-serialized on both paths; TLC checks the paths never differ, value-path acceptance implies stream-path acceptance, segmentation independence, serializer agreement, and zero drift from the two machines.",
+   note="Trusted: TLC, reflection projection, IDL renderer. Inputs beyond the bounded families are sampled mutants.")
+
 NOT_YET = {}
 
 def main():
